@@ -39,3 +39,8 @@ claim("C16",
       "Generated chromosome layouts (genes, interrupted genes, intergenic stretches at every position, single trailing bins, gene-less chromosomes, stepped row index, optional segments cutting genes) give the expected by_gene sequence by construction; genemetrics (with and without segments), squash_genes and breaks are compared with rows re-derived from the plan.",
       "Trusted: the plan-to-groups reading; explicit sample sex; positive weights; comma-free names.",
       "DESIGN.md 5/C16")
+claim("C17",
+      "property-based testing (Hypothesis): per-segment statistics and bin tests recomputed independently on the bins selected by the overlap inequality",
+      "Generated bin tables and segmentations (bin-less, one-bin, large segments, boundaries at bin edges and inside bins, ties, null-coverage bins, stepped index) are run through segmetrics with generated statistic subsets and through bintest; every value is compared with an independent computation, the bootstrap CI is checked for order, range and reproducibility under reseeded global RNGs, BH adjustment against its O(n^2) definition on generated p-value vectors.",
+      "Trusted: plain-formula models, scipy.stats.t / erfc; weights in (0,1); borderline decisions within 1e-12 of alpha accepted either way.",
+      "DESIGN.md 5/C17")
